@@ -138,7 +138,14 @@ func (s *attrStore) Attrs(id uint64) (m map[string]interface{}, err error) {
 	// Add to cache.
 	s.attrCache.Set(id, m)
 
-	return m, nil
+	// Hand out a copy, as a cache hit does: the map that is now in the cache
+	// (which is the shared emptyMap for an id without attributes) must not be
+	// reachable by the caller.
+	ret := make(map[string]interface{}, len(m))
+	for k, v := range m {
+		ret[k] = v
+	}
+	return ret, nil
 }
 
 // SetAttrs sets attribute values for a given ID.
